@@ -107,14 +107,17 @@ def run_driver(drv, table, cases, workdir, tag, verbose=False, timeout=3000):
         with open(p, "w") as f:
             f.write("\n".join(part) + "\n")
         cmd = [drv, "run", table, p] + (["--verbose"] if verbose else [])
-        procs.append((k, len(part), subprocess.Popen(cmd, stdout=subprocess.PIPE, stderr=subprocess.DEVNULL)))
+        # output to a file: a pipe read shard after shard would stall the other shards once it fills up
+        of = open(p + ".out", "wb")
+        procs.append((k, len(part), subprocess.Popen(cmd, stdout=of, stderr=subprocess.DEVNULL), of, p + ".out"))
     res = [None] * n
-    for k, cnt, pr in procs:
+    for k, cnt, pr, of, opath in procs:
         try:
-            out = pr.communicate(timeout=timeout)[0].decode("utf-8", "replace").split("\n")
+            pr.wait(timeout=timeout)
         except subprocess.TimeoutExpired:
             pr.kill()
-            out = []
+        of.close()
+        out = open(opath, "rb").read().decode("utf-8", "replace").split("\n")
         for j in range(cnt):
             res[k + j * nsh] = out[j] if j < len(out) and out[j] != "" else "<missing>"
     return res
